@@ -132,7 +132,11 @@ def _oracle_names(inputs, kind, val, env):
                 bad.append(f"C10.listed-name-resolves({r['path']!r}: {r['error'] or r['out'].strip()[:80]})")
             elif len(set(vn)) == len(vn) and f"samples_cnt: {1000 + i_listed}" not in r["out"]:
                 bad.append(f"C10.resolves-to-exactly-that-item({r['path']!r})")
+    listed = {x.strip().upper() for x in vn}
     for r in val["junk"]:
+        last = r["path"].replace("\\", "/").rstrip("/ ").split("/")[-1].strip().upper()
+        if last in listed and r["path"].upper().startswith("A:/VOL/"):
+            continue          # the "junk" token happens to be a listed name of this directory (e.g. a file called ".."): a valid path
         if r["error"]:
             bad.append(f"C10.no-unhandled-exception({r['path']!r}: {r['error']})")
         elif "was not found" not in r["out"]:
